@@ -67,6 +67,11 @@ pub struct TraceMonitor {
     /// k == 1: every earlier vector stays a possible current state (one parameter: nothing can
     /// be told apart by position), so only the set of vectors seen is kept
     seen1: std::collections::HashSet<u64>,
+    /// overflow fallback (sound, weaker): once more hypotheses are alive than can be tracked,
+    /// every vector seen so far stays a possible current state; membership by hashing
+    pub fallback: bool,
+    seen_full: std::collections::HashSet<u64>,
+    seen_masked: Vec<std::collections::HashSet<u64>>,
     /// when set to the number of proposals per inner loop: the believed current scores at
     /// each loop boundary (scores of the possible parents of the first proposal after it)
     pub snapshot_every: Option<u64>,
@@ -77,7 +82,27 @@ fn ham(a: &[u64], b: &[u64]) -> usize {
     a.iter().zip(b.iter()).filter(|(x, y)| x != y).count()
 }
 
+fn hvec(bits: &[u64], skip: usize) -> u64 {
+    let mut h: u64 = 0xcbf2_9ce4_8422_2325 ^ (skip as u64).wrapping_mul(0x9E37_79B9_7F4A_7C15);
+    for (i, b) in bits.iter().enumerate() {
+        let x = if i == skip { 0x5555_5555_5555_5555 } else { *b };
+        h = (h ^ x).wrapping_mul(0x100_0000_01b3);
+        h ^= h >> 31;
+    }
+    h
+}
+
 impl TraceMonitor {
+    fn remember(&mut self, bits: &[u64]) {
+        if self.seen_masked.len() != bits.len() {
+            self.seen_masked = vec![std::collections::HashSet::new(); bits.len()];
+        }
+        self.seen_full.insert(hvec(bits, usize::MAX));
+        for c in 0..bits.len() {
+            self.seen_masked[c].insert(hvec(bits, c));
+        }
+    }
+
     pub fn new(k: usize) -> Self {
         TraceMonitor {
             k,
@@ -99,6 +124,9 @@ impl TraceMonitor {
             zero_moves: 0,
             first_calls: vec![],
             seen1: std::collections::HashSet::new(),
+            fallback: false,
+            seen_full: std::collections::HashSet::new(),
+            seen_masked: vec![],
             snapshot_every: None,
             snapshots: vec![],
         }
@@ -138,6 +166,19 @@ impl TraceMonitor {
                 }
             }
             self.seen1.insert(bits[0]);
+            self.n_unresolvable += 1;
+            return vec![];
+        }
+        if self.fallback {
+            let has_parent = (0..bits.len()).any(|c| self.seen_masked.get(c).map(|m| m.contains(&hvec(&bits, c))).unwrap_or(false));
+            if !has_parent {
+                self.two_coordinate_moves += 1;
+                self.violations.push(TraceViolation {
+                    what: "proposal-not-derived-from-any-possible-current-state".into(),
+                    detail: json!({"call": idx, "proposal": v, "note": "set mode: no earlier vector differs from it in at most one parameter"}),
+                });
+            }
+            self.remember(&bits);
             self.n_unresolvable += 1;
             return vec![];
         }
@@ -256,10 +297,14 @@ impl TraceMonitor {
                     uniq.push(h);
                 }
             }
-            // if still large keep the most recent ones (later vectors are likelier current)
+            // still too many distinct candidates (effectively one free parameter): nothing
+            // may be dropped - switch to set mode for the rest of the run
             if uniq.len() > HYP_CAP {
-                let cut = uniq.len() - HYP_CAP;
-                uniq.drain(0..cut);
+                for h in uniq.iter() {
+                    let b = h.v.clone();
+                    self.remember(&b);
+                }
+                self.fallback = true;
             }
             self.hyps = uniq;
         }
@@ -273,7 +318,13 @@ impl TraceMonitor {
     /// the state handed back must be one of the possible current states, bit for bit
     pub fn check_returned(&mut self, v: &[f64]) -> bool {
         let bits: Vec<u64> = v.iter().map(|x| x.to_bits()).collect();
-        let ok = if self.k == 1 && bits.len() == 1 { self.seen1.contains(&bits[0]) } else { self.hyps.iter().any(|h| h.v == bits) };
+        let ok = if self.k == 1 && bits.len() == 1 {
+            self.seen1.contains(&bits[0])
+        } else if self.fallback {
+            self.seen_full.contains(&hvec(&bits, usize::MAX)) || self.hyps.iter().any(|h| h.v == bits)
+        } else {
+            self.hyps.iter().any(|h| h.v == bits)
+        };
         if !ok {
             self.violations.push(TraceViolation {
                 what: "returned-state-is-not-a-possible-current-state".into(),
